@@ -112,6 +112,12 @@ func RunHarness(ld *Loaded, pkgPath, fnName string, cfg *Config, solverKind sym.
 		e.bytes[i] = tb.Const(8, uint64(i))
 	}
 	e.solver = sym.NewSolver(solverKind, tb, cfg.TimeoutMs)
+	if d := os.Getenv("VERIF_SMT_LOG"); d != "" {
+		if f, err := os.Create(filepath.Join(d, fmt.Sprintf("%s_%d.smt2", fnName, time.Now().UnixNano()%1000000))); err == nil {
+			e.solver.Log = f
+			defer f.Close()
+		}
+	}
 	defer func() {
 		e.solver.Close()
 		e.rep.Solver = e.solver.Stats
@@ -166,6 +172,8 @@ func (e *Exec) runPath(fn *ssa.Function, it workItem) (kind, msg, fatal string) 
 	e.mapOrderReverse = false
 	e.lockState = map[*Object]int{}
 	e.timeNow = 0
+	e.lastNow = nil
+	e.decOrigin = nil
 	e.randCtr = 0
 	if len(e.prefix) == 0 {
 		e.pmodel = nil
